@@ -435,15 +435,23 @@ State0 == LET r == EvBody(PreludeForms, 1, 1, BaseState) IN
 \* TLC re-evaluates recursive constant definitions on every use, so the evaluated
 \* prelude is cached in TLC register 1 (set once, by the main thread, from an ASSUME
 \* of the model being run: ASSUME InitRegisters) and a per-model context in register 2.
-InitRegisters == TLCSet(1, State0)
+InitRegisters == TLCSet(1, Norm(State0))
 Base == TLCGet(1)
-SetContext(forms) == TLCSet(2, LET r == EvBody(forms, 1, 1, State0) IN
-                                 IF Ok(r) THEN [r.st EXCEPT !.fuel = Fuel0] ELSE Assert(FALSE, <<"context failed", r.k>>))
+SetContext(forms) == TLCSet(2, Norm(LET r == EvBody(forms, 1, 1, State0) IN
+                                 IF Ok(r) THEN [r.st EXCEPT !.fuel = Fuel0] ELSE Assert(FALSE, <<"context failed", r.k>>)))
 CtxBase == TLCGet(2)
 
 \* Run a program (sequence of top-level forms) in a fresh environment
 Run(forms) == EvBody(forms, 1, 1, Base)
 RunText(s) == Run(ReadAll(s))
+\* every top-level form is evaluated even when an earlier one failed (a REPL session)
+RECURSIVE RunContinuingFrom(_, _, _)
+RunContinuingFrom(forms, i, st) ==
+  IF i > Len(forms) THEN R("val", NilV, st)
+  ELSE LET r == Ev(forms[i], 1, st) IN
+    IF r.k \in {"div", "unspec"} THEN r ELSE RunContinuingFrom(forms, i + 1, r.st)
+RunContinuing(forms) == RunContinuingFrom(forms, 1, Base)
+
 \* ... after the model's context forms
 RunInCtx(forms) == EvBody(forms, 1, 1, CtxBase)
 \* ... recording every (form, visible bindings) handed to the evaluator
